@@ -108,6 +108,30 @@ pub fn substitute(len: usize, sub: &str, r: u64, orig: &[u8]) -> Vec<u8> {
         (48, "identity") => bad::g1_identity().to_vec(),
         (48, "offcurve") => bad::g1_off_curve().to_vec(),
         (48, "nonsub") => bad::g1_non_subgroup().to_vec(),
+        (48, "inf-flag") | (96, "inf-flag") => {
+            // the honest point with the "infinity" flag bit set (not a canonical encoding of anything)
+            let mut b = orig.to_vec();
+            b[0] |= 0x40;
+            b
+        }
+        (48, "inf-junk") | (96, "inf-junk") => {
+            // infinity flag with a non-zero body
+            let mut b = vec![0u8; len];
+            b[0] = 0xc0;
+            b[len - 1] = 1;
+            b
+        }
+        (48, "inf-sign") | (96, "inf-sign") => {
+            // infinity with the sign bit also set
+            let mut b = vec![0u8; len];
+            b[0] = 0xe0;
+            b
+        }
+        (48, "no-compression-flag") | (96, "no-compression-flag") => {
+            let mut b = orig.to_vec();
+            b[0] &= 0x7f;
+            b
+        }
         (48, "other") => crate::refc::g1b(&crate::refc::rand_g1(&mut s)).to_vec(),
         (48, "neg") => {
             // the inverse of the same point (same x-coordinate, other sign bit); identity stays
@@ -191,8 +215,8 @@ pub fn substitute(len: usize, sub: &str, r: u64, orig: &[u8]) -> Vec<u8> {
 /// The invalid / boundary substitutes that apply to an atom of the given kind and length.
 pub fn substitutes_for(kind: AtomKind, len: usize) -> Vec<&'static str> {
     match (kind, len) {
-        (AtomKind::Bytes, 48) => vec!["identity", "offcurve", "nonsub", "other", "random"],
-        (AtomKind::Bytes, 96) => vec!["identity", "offcurve", "nonsub", "other", "random"],
+        (AtomKind::Bytes, 48) => vec!["identity", "offcurve", "nonsub", "inf-flag", "inf-junk", "inf-sign", "no-compression-flag", "other", "random"],
+        (AtomKind::Bytes, 96) => vec!["identity", "offcurve", "nonsub", "inf-flag", "inf-junk", "inf-sign", "no-compression-flag", "other", "random"],
         (AtomKind::Bytes, 32) => vec!["q", "q+1", "ones", "hibit", "orig+q", "closetag", "closetag+q", "zero", "other"],
         (AtomKind::U64, 8) => vec!["2^63", "2^64-1", "2^63-1", "zero"],
         (AtomKind::I64, 8) => vec!["imin", "imin+1", "2^63-1", "zero"],
